@@ -104,6 +104,52 @@ def cases(tier, seed):
     # JSON-schema input
     for emit in ("class", "sqlalchemy", "argparse"):
         yield dict(kind="gen_json", emit=emit, tpl="{name}Config")
+    # declarative SQLAlchemy models as input, with the base classes listed in the usual ways: --parse infer must read them as what --parse sqlalchemy reads from `(Base)`
+    for names_, bases, emit in itertools.product((["Alpha"], ["Gamma", "Delta"], ["Epsilon", "Alpha", "Gamma"]), SQL_BASES, EMITS):
+        yield dict(kind="gen_sql_infer", names=names_, bases=bases, emit=emit, tpl="{name}Config")
+
+
+SQL_BASES = ["Base", "AuditMixin, Base", "Base, AuditMixin", "db.Model, Base", "TimestampMixin, AuditMixin, Base"]
+
+
+def render_sql_model(name, bases):
+    import cdd.sqlalchemy.emit
+
+    node = cdd.sqlalchemy.emit.sqlalchemy(symbol_ir(name), class_name=name, emit_repr=False)
+    node.bases = [ast.parse(b.strip(), mode="eval").body for b in bases.split(",")]
+    return F.render(ast.fix_missing_locations(node))
+
+
+def _run_sql_infer(case):
+    """differential: gen --parse infer on models whose bases are `case["bases"]` against gen --parse sqlalchemy on the same models declared `(Base)`"""
+    viol = []
+    d = tempfile.mkdtemp(prefix="c19s_")
+    ctx = dict(check="gen", emit=case["emit"], parse="infer", input_kinds="sqlalchemy", n_symbols=len(case["names"]), bases={"Base": "base_only", "Base, AuditMixin": "base_first"}.get(case["bases"], "base_not_first"))
+    try:
+        outs = {}
+        for tag, bases, parse in (("infer", case["bases"], "infer"), ("explicit", "Base", "sqlalchemy")):
+            src = os.path.join(d, "inp_%s.py" % tag)
+            with open(src, "wt") as f:
+                f.write("from sqlalchemy import *\n\n\n" + "\n\n\n".join(render_sql_model(n, bases) for n in case["names"]) + "\n")
+            out = os.path.join(d, "out_%s.%s" % (tag, "json" if case["emit"] == "json_schema" else "py"))
+            try:
+                _main(["gen", "--name-tpl", case["tpl"], "--input-mapping", src, "--parse", parse, "--emit", case["emit"], "-o", out])
+                outs[tag] = open(out, "rt").read() if os.path.isfile(out) else "<no output>"
+            except (SystemExit, Exception) as e:
+                outs[tag] = "<raises %s>" % type(e).__name__
+                if os.path.isfile(out):
+                    os.unlink(out)
+        if outs["explicit"].startswith("<"):
+            viol.append(dict(sig=dict(ctx, clause="gen_raises", parse="sqlalchemy", exc=outs["explicit"].strip("<>").replace("raises ", "")), expected="a module is written", observed=outs["explicit"]))
+        if outs["infer"] != outs["explicit"]:
+            import difflib
+
+            diff = [l for l in difflib.unified_diff(outs["explicit"].split("\n"), outs["infer"].split("\n"), lineterm="", n=0) if not l.startswith(("---", "+++", "@@"))]
+            viol.append(dict(sig=dict(ctx, clause="inferred_parse_differs_from_explicit", explicit_ok=not outs["explicit"].startswith("<")), expected="the module that --parse sqlalchemy writes for the same models declared (Base)",
+                             observed="; ".join(diff[:6])[:400]))
+        return dict(outcome="ok" if not viol else "diff", violations=viol, detail=outs["infer"][:2500])
+    finally:
+        shutil.rmtree(d, ignore_errors=True)
 
 
 def _main(argv):
@@ -304,7 +350,7 @@ def _run(case):
 
 
 def run(case):
-    res = core.forked(_run, case)
+    res = core.forked(_run_sql_infer if case["kind"] == "gen_sql_infer" else _run, case)
     viol = res.get("violations", [])
     for x in viol:
         x.setdefault("detail", res.get("detail"))
@@ -322,7 +368,8 @@ def describe(tier):
     return dict(
         rule="inputs: 1-3 (thorough: 1-5) symbols of a 5-interface alphabet as classes, functions or argparse functions (homogeneous: --parse explicit and infer; 3 mixed-kind files: "
         "infer) x 8 emit kinds x 2 name templates x {imports off, inferred, --prepend + --imports-from-file, all three}; the non-clobbering guard for every "
-        "emit kind with an existing output (with content / empty) x --prepend; a JSON-schema input file into 3 emit kinds; every run in a forked child; "
+        "emit kind with an existing output (with content / empty) x --prepend; a JSON-schema input file into 3 emit kinds; declarative SQLAlchemy models whose base classes are listed in 5 ways (mixins before / after Base, a dotted base) "
+        "through --parse infer, compared with --parse sqlalchemy on the plain declaration, x 8 emit kinds; every run in a forked child; "
         "a case = one gen invocation",
         bounds=dict(symbols=list(SYMBOLS), input_kinds=INPUT_KINDS, emits=EMITS, templates=TEMPLATES),
         exhaustive=True,
